@@ -184,6 +184,8 @@ struct ShOwner {
     handles: Vec<H>,
     /// (value, stale) — stale = provided before the scope's last release
     ctx: [Option<(i64, bool)>; 3],
+    /// when each context entry was provided (`Shadow::seq`)
+    ctx_seq: [u64; 3],
     alive: bool,
     /// the effect task owning this scope has ended (its release is booked at the end of the op)
     gone: bool,
@@ -199,6 +201,8 @@ struct Shadow {
     unowned: BTreeSet<H>,
     doomed: Vec<bool>,
     o_map: Vec<usize>,
+    /// logical clock of the bookkeeping (provides, task ends)
+    seq: u64,
     e_owner: Vec<usize>,
     m_owner: Vec<usize>,
     // marks taken at the start of the current op
@@ -280,12 +284,14 @@ struct World {
     status: BTreeMap<String, String>,
     memo_depth: usize,
     sh: Shadow,
-    ended: Vec<usize>,
+    /// effect tasks that ended during the current op: (effect, its scope's subtree at that moment, time)
+    ended: Vec<(usize, Vec<usize>, u64)>,
     fails: Vec<String>,
     tags: BTreeSet<&'static str>,
     baseline: usize,
     active: bool,
     eff_runs: Vec<u32>,
+    memo_runs: Vec<u32>,
 }
 
 /// every constructor that re-runs a body under an owner of its own
@@ -322,8 +328,16 @@ impl Drop for Sentinel {
         let _ = W.try_with(|c| {
             if let Ok(mut w) = c.try_borrow_mut() {
                 if w.active {
-                    w.ended.push(e);
                     let o = w.sh.e_owner[e];
+                    // the scope as it is now: what is created under it later in the same op is not
+                    // part of what the task's end releases
+                    let mut post = vec![];
+                    if w.sh.owners[o].alive {
+                        w.sh.subtree_postorder(o, &mut post);
+                    }
+                    w.sh.seq += 1;
+                    let t = w.sh.seq;
+                    w.ended.push((e, post, t));
                     w.sh.owners[o].gone = true;
                 }
             }
@@ -440,10 +454,22 @@ impl World {
     /// the scope rooted at `root` has just been released by the implementation
     /// (cleanup / re-run / drop); `dead` = the root itself is gone afterwards
     fn sh_release(&mut self, root: usize, dead: bool) {
-        let mut post = vec![];
-        if self.sh.owners[root].alive {
-            self.sh.subtree_postorder(root, &mut post);
-        }
+        self.sh_release_at(root, dead, None)
+    }
+
+    /// `at` = the subtree and the time recorded when the release actually happened (task end)
+    fn sh_release_at(&mut self, root: usize, dead: bool, at: Option<(Vec<usize>, u64)>) {
+        let (post, t) = match at {
+            Some((post, t)) => (post, t),
+            None => {
+                let mut post = vec![];
+                if self.sh.owners[root].alive {
+                    self.sh.subtree_postorder(root, &mut post);
+                }
+                self.sh.seq += 1;
+                (post, self.sh.seq)
+            }
+        };
         // --- cleanups: exactly once, descendants first
         let pos_of = |op_c: &Vec<(usize, bool)>, cid: usize| op_c.iter().position(|(c, _)| *c == cid);
         let mut must: Vec<(usize, usize, usize)> = vec![]; // (owner, cid, position)
@@ -504,10 +530,12 @@ impl World {
         }
         // --- the generation ends: children detached, contexts of the old generation are stale
         for &a in &post {
-            self.sh.owners[a].children.clear();
-            for c in self.sh.owners[a].ctx.iter_mut() {
-                if let Some((_, stale)) = c {
-                    *stale = true;
+            self.sh.owners[a].children.retain(|c| !post.contains(c));
+            for ty in 0..3 {
+                if self.sh.owners[a].ctx_seq[ty] < t {
+                    if let Some((_, stale)) = &mut self.sh.owners[a].ctx[ty] {
+                        *stale = true;
+                    }
                 }
             }
         }
@@ -603,6 +631,13 @@ fn run_handler(eid: usize, hb: usize) {
 fn run_memo_body(mid: usize, b: usize) -> i64 {
     ev(Ev::M(mid));
     w(|w| {
+        if w.memo_runs.len() <= mid {
+            w.memo_runs.resize(mid + 1, 0);
+        }
+        w.memo_runs[mid] += 1;
+        if w.memo_runs[mid] > 1 {
+            w.tags.insert("memo-rerun");
+        }
         let o = w.sh.m_owner[mid];
         w.sh_release(o, false);
         w.sh.cur.push(Some(o));
@@ -715,14 +750,18 @@ fn exec_bop(op: &BOp, sum: &mut i64) {
             w(|w| {
                 w.tags.insert("ctx");
                 if let Some(a) = w.sh.ambient() {
+                    w.sh.seq += 1;
                     w.sh.owners[a].ctx[ty] = Some((v, false));
+                    w.sh.owners[a].ctx_seq[ty] = w.sh.seq;
                 }
             });
         }
         BOp::Use(ty) => {
             let actual = ctx_use(ty);
             w(|w| {
-                judge_ctx(w, "use_context", ty, actual);
+                if !(w.in_handler.is_some() && w.owner_missing("a context lookup")) {
+                    judge_ctx(w, "use_context", ty, actual);
+                }
             });
             ev(Ev::U(ty, actual));
         }
@@ -1053,7 +1092,30 @@ fn op_line(words: &[&str]) -> Option<bool> {
                 H::I(i) => w(|w| w.items[i]).dispose(),
                 H::S(i) => w(|w| w.sigs[i]).dispose(),
                 H::M(i) => w(|w| w.memos[i]).dispose(),
-                H::E(i) => w(|w| w.effs[i]).dispose(),
+                H::E(i) => {
+                    enum D {
+                        L(Effect<LocalStorage>),
+                        S(Effect<SyncStorage>),
+                        R(Option<RenderEffect<()>>),
+                        A(AsyncDerived<i64>),
+                        N,
+                    }
+                    let d = w(|w| match &mut w.effs[i] {
+                        AnyEff::Local(e) => D::L(*e),
+                        AnyEff::Sync(e) => D::S(*e),
+                        AnyEff::Render(r) => D::R(r.take()),
+                        AnyEff::Async(a) => D::A(*a),
+                        AnyEff::Pending => D::N,
+                    });
+                    // the values are dropped / disposed outside the borrow of the world
+                    match d {
+                        D::L(e) => e.dispose(),
+                        D::S(e) => e.dispose(),
+                        D::R(r) => drop(r),
+                        D::A(a) => a.dispose(),
+                        D::N => {}
+                    }
+                }
             }
             w(|w| {
                 w.tags.insert("dispose");
@@ -1110,12 +1172,12 @@ fn finish_op(is_end: bool) -> String {
     w(|w| {
         // effect tasks that ended during this op: their owner was dropped
         let ended = std::mem::take(&mut w.ended);
-        for e in ended {
+        for (e, post, t) in ended {
             let o = w.sh.e_owner[e];
             if !w.sh.doomed[e] {
                 w.fail("frame", format!("the task of live effect {e} ended"));
             }
-            w.sh_release(o, true);
+            w.sh_release_at(o, true, Some((post, t)));
         }
         // every cleanup that ran belongs to a scope that was released
         let stray: Vec<usize> = w.sh.op_c.iter().filter(|c| !c.1).map(|c| c.0).collect();
@@ -1128,7 +1190,9 @@ fn finish_op(is_end: bool) -> String {
         for h in w.all_handles() {
             let (name, st) = w.status_of(h);
             let is_live = st != "x";
-            if is_live {
+            // a RenderEffect is not an arena entry
+            let in_arena = !matches!(h, H::E(k) if matches!(w.effs[k], AnyEff::Render(_)));
+            if is_live && in_arena {
                 live += 1;
             }
             let exp = w.sh.exp_live.get(&h).copied().unwrap_or(true);
@@ -1175,6 +1239,7 @@ fn finish_op(is_end: bool) -> String {
             let leaked: Vec<H> = w
                 .all_handles()
                 .into_iter()
+                .filter(|h| !matches!(h, H::E(k) if matches!(w.effs[*k], AnyEff::Render(_))))
                 .filter(|h| w.live(*h) && !reach.contains(h))
                 .collect();
             if !leaked.is_empty() {
@@ -1195,7 +1260,16 @@ fn finish_op(is_end: bool) -> String {
             w.events.iter().map(|e| e.show()).collect::<Vec<_>>().join(",")
         };
         let ch = if changes.is_empty() { "-".to_string() } else { changes.join(",") };
-        let verdict = match w.fails.first() {
+        // recorded deviations are reported after anything else, in a fixed order
+        let soft = ["ctx-survives-cleanup", "watch-handler-unowned"];
+        let class_of = |f: &String| f.split(' ').next().unwrap_or("").to_string();
+        let first = w
+            .fails
+            .iter()
+            .find(|f| !soft.contains(&class_of(f).as_str()))
+            .or_else(|| w.fails.iter().find(|f| class_of(f) == soft[0]))
+            .or_else(|| w.fails.first());
+        let verdict = match first {
             None => "ok".to_string(),
             Some(f) => format!("fail {f}"),
         };
@@ -1240,30 +1314,59 @@ fn run_line(line: &str) -> String {
 
 // ---------------------------------------------------------------- generator
 
+/// body classes of the re-run matrix: what a scope allocates decides which of the owner's lists
+/// (`nodes`, `cleanups`, `children`) its next clean-up has to look at
 fn gen_body(rng: &mut Rng, k: usize, memo_like: bool) -> String {
     let n = rng.range(1, 5);
     let mut toks = vec![];
-    if rng.chance(2, 3) {
+    if rng.chance(3, 4) {
         toks.push(format!("r{}", rng.below(2)));
     }
+    let class = rng.below(10); // 0 plain, 1 cleanups, 2 children, 3 nothing, else mixture
     for _ in 0..n {
-        let t = match rng.below(20) {
-            0..=1 => format!("r{}", rng.below(3)),
-            2..=5 => format!("c{}", rng.range(1, 40)),
-            6 => format!("n{}", rng.range(1, 40)),
-            7..=9 => format!("i{}", rng.range(1, 90)),
-            10 => format!("s{}", rng.range(1, 9)),
-            11..=12 => format!("p{}.{}", rng.below(3), rng.range(1, 9)),
-            13..=14 => format!("u{}", rng.below(3)),
-            15..=16 if k > 0 => format!("e{}", rng.below(k)),
-            17 if k > 0 => format!("m{}", rng.below(k)),
-            18 if !memo_like => format!("g{}", rng.below(2)),
-            19 => match rng.below(3) {
-                0 => "o".to_string(),
-                1 => format!("t{}", rng.below(3)),
+        let t = match class {
+            0 => match rng.below(3) {
+                0 => format!("s{}", rng.range(1, 9)),
                 _ => format!("i{}", rng.range(1, 90)),
             },
-            _ => format!("c{}", rng.range(1, 40)),
+            1 => match rng.below(5) {
+                0 => format!("n{}", rng.range(1, 40)),
+                _ => format!("c{}", rng.range(1, 40)),
+            },
+            2 => match rng.below(6) {
+                0 | 1 => "o".to_string(),
+                2 if k > 0 => format!("e{}", rng.below(k)),
+                3 if k > 0 => format!("m{}", rng.below(k)),
+                4 if k > 0 => format!("v{}", rng.below(k)),
+                5 if k > 0 => format!("a{}", rng.below(k)),
+                _ => "o".to_string(),
+            },
+            3 => match rng.below(3) {
+                0 => format!("u{}", rng.below(3)),
+                _ => format!("r{}", rng.below(3)),
+            },
+            _ => match rng.below(24) {
+                0..=1 => format!("r{}", rng.below(3)),
+                2..=5 => format!("c{}", rng.range(1, 40)),
+                6 => format!("n{}", rng.range(1, 40)),
+                7..=9 => format!("i{}", rng.range(1, 90)),
+                10 => format!("s{}", rng.range(1, 9)),
+                11..=12 => format!("p{}.{}", rng.below(3), rng.range(1, 9)),
+                13..=14 => format!("u{}", rng.below(3)),
+                15..=16 if k > 0 => format!("e{}", rng.below(k)),
+                17 if k > 0 => format!("m{}", rng.below(k)),
+                18 if !memo_like => format!("g{}", rng.below(2)),
+                19 => match rng.below(3) {
+                    0 => "o".to_string(),
+                    1 => format!("t{}", rng.below(3)),
+                    _ => format!("i{}", rng.range(1, 90)),
+                },
+                20 if k > 0 => format!("{}{}", if rng.chance(1, 2) { "E" } else { "I" }, rng.below(k)),
+                21 if k > 0 => format!("v{}", rng.below(k)),
+                22 if k > 0 => format!("a{}", rng.below(k)),
+                23 if k > 0 => format!("{}{}.{}", if rng.chance(1, 2) { "w" } else { "W" }, rng.below(k), rng.below(k)),
+                _ => format!("c{}", rng.range(1, 40)),
+            },
         };
         toks.push(t);
     }
@@ -1323,7 +1426,9 @@ fn gen_random_case(rng: &mut Rng, name: String, big: bool) -> Vec<String> {
         };
         let build_n = (nops / 3).max(2);
         let build_phase = step < build_n;
-        let r = if after_set && rng.chance(3, 4) {
+        let r = if after_set && nm > 0 && rng.chance(1, 2) {
+            99 // read a memo: recomputes it if one of its signals was written
+        } else if after_set && rng.chance(3, 4) {
             rng.range(48, 63)
         } else if step == build_n && rng.chance(4, 5) {
             60 // idle: first runs
@@ -1338,9 +1443,15 @@ fn gen_random_case(rng: &mut Rng, name: String, big: bool) -> Vec<String> {
         let line = match r {
             0..=24 => {
                 // creation under an owner (sometimes two nested `in`, sometimes none)
-                let tok = match rng.below(16) {
-                    0..=3 => format!("e{}", nb - 1 - rng.below(nb.min(2))),
+                let last = nb - 1 - rng.below(nb.min(2));
+                let tok = match rng.below(24) {
+                    0..=3 => format!("e{last}"),
                     4 => format!("m{}", rng.below(nb)),
+                    15..=17 => format!("m{last}"),
+                    18 => format!("{}{last}", if rng.chance(1, 2) { "E" } else { "I" }),
+                    19..=20 => format!("v{last}"),
+                    21..=22 => format!("a{last}"),
+                    23 => format!("{}{last}.{}", if rng.chance(1, 2) { "w" } else { "W" }, rng.below(nb)),
                     5..=6 => format!("c{}", rng.range(1, 40)),
                     7 => format!("n{}", rng.range(1, 40)),
                     8..=9 => format!("i{}", rng.range(1, 90)),
@@ -1401,8 +1512,12 @@ fn gen_random_case(rng: &mut Rng, name: String, big: bool) -> Vec<String> {
                     format!("dispose {k} {}", rng.below(n))
                 }
             }
-            92..=94 => match pick_o(rng) {
+            92 => match pick_o(rng) {
                 Some(o) => format!("pause {o}"),
+                None => "idle".to_string(),
+            },
+            93..=94 => match pick_o(rng) {
+                Some(o) => format!("wc {o} {}", rng.below(nb)),
                 None => "idle".to_string(),
             },
             95..=96 => match pick_o(rng) {
@@ -1423,6 +1538,70 @@ fn gen_random_case(rng: &mut Rng, name: String, big: bool) -> Vec<String> {
         g.push("end".to_string());
     }
     g.lines
+}
+
+/// the re-run matrix: every kind of owner-scoped re-run x every class of what the body allocates;
+/// after each re-run the handles of the previous run must be disposed and the arena must hold
+/// exactly the live values
+fn gen_matrix() -> Vec<Vec<String>> {
+    let classes = [
+        ("plain", "r0,i7,s3"),
+        ("cleanup", "r0,c5"),
+        ("child", "r0,o"),
+        ("childeff", "r0,e0"),
+        ("childmemo", "r0,m0,g0"),
+        ("mix", "r0,i7,c5,o,s2"),
+        ("nothing", "r0"),
+    ];
+    let kinds = ["m", "e", "E", "I", "w", "W", "v", "a", "wc"];
+    let mut out = vec![];
+    for (cname, cbody) in classes {
+        for kind in kinds {
+            for tail in 0..2 {
+                let mut l = vec![format!("case mx-{kind}-{cname}-{tail}")];
+                l.push("body i4".into()); // b0: nested effect / memo body
+                l.push("body r0".into()); // b1: handler that creates nothing
+                l.push(format!("body {cbody}")); // b2
+                l.push("x o".into());
+                l.push("in 0 x s1".into());
+                let rerun: Vec<String> = match kind {
+                    "m" => {
+                        l.push("in 0 x m2".into());
+                        vec!["x g0".into()]
+                    }
+                    "wc" => {
+                        l.push("child 0".into());
+                        vec!["wc 1 2".into()]
+                    }
+                    "w" | "W" => {
+                        l.push(format!("in 0 x {kind}2.1"));
+                        vec!["idle".into()]
+                    }
+                    _ => {
+                        l.push(format!("in 0 x {kind}2"));
+                        vec!["idle".into()]
+                    }
+                };
+                for v in 2..5 {
+                    l.extend(rerun.iter().cloned());
+                    l.push(format!("set 0 {v}"));
+                }
+                l.extend(rerun.iter().cloned());
+                if tail == 0 {
+                    l.push(if kind == "wc" { "drop 1".into() } else { "cleanup 0".into() });
+                    l.push("idle".into());
+                } else if kind == "m" {
+                    l.push("dispose m 0".into());
+                } else if kind != "wc" {
+                    l.push("dispose e 0".into());
+                    l.push("idle".into());
+                }
+                l.push("end".into());
+                out.push(l);
+            }
+        }
+    }
+    out
 }
 
 /// exhaustive small scope: a fixed prelude (root owner, signal, a nested effect reading the signal)
@@ -1476,7 +1655,8 @@ fn main() {
             let mut rng = Rng::new(seed);
             let mut out = String::new();
             let big = tier == "thorough";
-            let ex = if big { gen_exhaustive(4, n / 2) } else { gen_exhaustive(3, n / 2) };
+            let mut ex = gen_matrix();
+            ex.extend(if big { gen_exhaustive(4, n / 2) } else { gen_exhaustive(3, n / 2) });
             let nex = ex.len();
             for c in ex {
                 for l in c {
